@@ -2495,7 +2495,7 @@ def shared_state(tree: ast.Module) -> list[tuple[str, str, str]]:
     census lists every place where a function or method could: a `global`/`nonlocal` statement; a store into (or delete
     from) an attribute or item of a module-level name or of a class (`_CACHE[key] = obj`, `Vec._interned[...] = ...`,
     `cls.registry = ...`, `type(self).last = ...`, `setattr(Module_or_Class, ...)`); a mutating method call on such a name
-    (`_CACHE.setdefault(...)`, `.append`, `.pop` ...); a caching decorator (`lru_cache`, `cache`, `cached_property`) on a
+    (`_CACHE.setdefault(...)`, `.append`, `.pop` ...) or on a parameter with a mutable default; a caching decorator (`lru_cache`, `cache`, `cached_property`) on a
     function whose declared result is not an immutable scalar/string.  Rows: (function, kind, name).  Today: none.
     Functions built by exec() from the operator templates are not seen here (the in-place census reads those)."""
     module_level: set[str] = set()
@@ -2537,10 +2537,19 @@ def shared_state(tree: ast.Module) -> list[tuple[str, str, str]]:
         local -= outer
         for g in sorted(outer):
             rows.add((q, 'global_statement', g))
+        # a mutable default argument is created once and shared by all calls: `def thaw(self, _memo={})`
+        pos = fn.args.posonlyargs + fn.args.args
+        defaults = list(zip(pos[len(pos) - len(fn.args.defaults):], fn.args.defaults)) + \
+            [(a, d) for a, d in zip(fn.args.kwonlyargs, fn.args.kw_defaults) if d is not None]
+        mutable_default = {a.arg for a, d in defaults
+                           if isinstance(d, (ast.Dict, ast.List, ast.Set, ast.ListComp, ast.DictComp, ast.SetComp))
+                           or (isinstance(d, ast.Call) and not (isinstance(d.func, ast.Name) and d.func.id in ('float', 'int', 'str', 'bool', 'tuple', 'frozenset', 'object')))}
         first = fn.args.args[0].arg if fn.args.args else None
         is_cm = any(deco(d) == 'classmethod' for d in fn.decorator_list) or fn.name in ('__new__', '__init_subclass__', '__class_getitem__')
 
         def outlives(r: ast.AST) -> str | None:
+            if isinstance(r, ast.Name) and r.id in mutable_default:
+                return f'default of {r.id}'
             if isinstance(r, ast.Name):
                 if r.id not in local and (r.id in module_level or r.id in classes):
                     return r.id
